@@ -7,10 +7,10 @@ namespace Generated.CallbackSites
 def invokers : List String := ["spox._graph.Graph._reconstruct", "spox._graph.subgraph"]
 
 /-- functions that call `._reconstruct(…)` -/
-def reconstructCallers : List String := ["spox._graph.Graph.with_arguments"]
+def reconstructCallers : List String := []
 
 /-- functions that read `._constructor` (attribute load or getattr) -/
-def constructorReaders : List String := ["spox._graph.Graph._reconstruct", "spox._graph.Graph.with_arguments"]
+def constructorReaders : List String := ["spox._graph.Graph._reconstruct"]
 
 /-- (module, function) of every function that calls `subgraph(…)` -/
 def subgraphCallers : List (String × String) :=
